@@ -54,6 +54,10 @@ PROP = [  # (subject fragment, property, also)
  ("bulk transfer checks unique indexes for all rows", "C11", "C10"),
  ("JSON persistence keeps NaN and infinite", "C18", ""),
  ("spilling an index to disk sizes B+ tree pages", "C16", ""),
+ ("also update the catalog's copy of the table schema", "C33", ""),
+ ("DROP COLUMN / CHANGE COLUMN keep dependent objects consistent", "C33", "C15"),
+ ("Database::drop_table also drops the indexes recorded under", "C33", ""),
+ ("RENAME TO moves the table's user-defined indexes", "C33", ""),
 ]
 def main():
     root = sys.argv[1] if len(sys.argv) > 1 else "/verif"
